@@ -25,7 +25,11 @@ RULE = ("one case = (mesh, tree class, root, exclusion set, avoid_boundary, weig
         "with ties and on the moment curve, 4 dict patterns with ties/zero/negative weights, sparse Attribute} and every "
         "weight vector over the small alphabet on graphs with few edges; forests on every mesh (face forest x every "
         "exclusion set); root=None x every answer of the randint seam; each tree traversed in BFS and DFS order. "
-        "non-trivial = the tree reaches at least two elements or the exclusion changes the reached set")
+        "call forms (clause H): per mesh and entry point, every meaning of the options (all at the documented default, all "
+        "different, each option singled out both ways) x every way of writing the call (all by keyword, each defaulted option "
+        "omitted alone, all defaulted options omitted, all positional in the documented order, positional prefix); traverse() "
+        "with the order omitted / by keyword / positional; the library signatures against the pinned table of documented "
+        "defaults. non-trivial = the tree reaches at least two elements or the exclusion changes the reached set")
 ASSUMPTIONS = [
     "mesh.vertices / edges / faces / cells containers are read back as data (edge id -> vertex pair, face id -> vertices); "
     "the adjacency oracle is recomputed from these lists only (C01/C03 check the connectivity tables themselves)",
@@ -39,6 +43,13 @@ ASSUMPTIONS = [
     "observation of the same tree through the fourth public accessor of the anchored classes; it is evaluated on the fresh mesh and "
     "after a persistent 'barycenter' attribute exists on cells / on faces (what attributes.face_barycenter(mesh) leaves behind)",
     "a hang inside the library is only caught by the runner's per-task watchdog",
+    "documented defaults (table DOC_SIGNATURES, copied from the signatures and docstrings of the unchanged tree): an omitted option "
+    "means its documented default, options passed positionally in the documented order mean the same as by keyword; the library is "
+    "deterministic, so two spellings of one call give identical parent / children (as sets) / edge tables; a None root is the "
+    "answer of the randint seam (the same answer for every spelling)",
+    "'BFS' order = the depth of the yielded nodes never decreases; 'DFS' order = pre-order, every subtree is one contiguous block "
+    "(which child comes first is not fixed)",
+    "no option of these entry points has a size threshold (no leaf size or the like): small inputs exercise every default",
 ]
 BOUNDS = {
     "quick": "GRAPH(n<=5): all 1099 labelled graphs as polylines; SURF: all tri+quad complexes on 3 and 4 vertices (66), all 410 "
@@ -46,11 +57,12 @@ BOUNDS = {
              "holey 3x3 grids tri/quad/mixed: 139; 6 odd specimens (unused vertices, hexahedral grids); every root; exclusion sets "
              "= every subset of ids of size <=2 (<=1 for the 5-vertex quad complexes, holey grids, odd specimens) + 2 sets with an "
              "absent id; avoid_boundary both; 9 weight choices + every weight vector in {1,2}^E for graphs with E<=5; every "
-             "answer of randint; BFS and DFS traversal",
+             "answer of randint; BFS and DFS traversal; call forms (clause H) on every 2nd graph, every 2nd member of surf, "
+             "every 4th 5-vertex quad complex and every member of the other families: <=8 meanings x <=7 spellings per class",
     "thorough": "same families + TET(6) classes (16), SURF(6) triangle classes (28), zoo (octahedron, cube, tetrahedron, Csaszar "
                 "torus, prisms/antiprisms 3..4, grids 2x2..3x4 in 4 modes: 32), 4x4 holey grids with <=2 faces removed (74); "
                 "exclusion sets of size <=3 (<=2 for zoo, 4x4 holey grids, odd specimens); every weight vector in {1,2,3}^E for "
-                "graphs with E<=5 edges and for all graphs on <=4 vertices",
+                "graphs with E<=5 edges and for all graphs on <=4 vertices; call forms (clause H) on every mesh",
 }
 
 TREEMODS = ("edge_sp", "face_sp", "cell_sp")
@@ -132,6 +144,8 @@ def _families(tier):
     return fams
 
 
+# clause H (call forms) runs on every CF_STRIDE-th member of a family in the quick tier, on every member in thorough
+CF_STRIDE = {"graph": 2, "surf": 2, "surf5q": 4}
 BATCH = {"surf5q": 12, "odd": 1, "graph": 12, "surf": 6, "tet": 3, "holey3": 2, "tet6": 1, "surf6": 1, "zoo": 1, "holey4": 1}
 
 
@@ -141,8 +155,12 @@ def tasks(tier):
         b = BATCH[name]
         if tier == "thorough" and name in ("graph", "surf", "surf5q", "holey3"):
             b = max(1, b // 3)
+        stride = 1 if tier == "thorough" else CF_STRIDE.get(name, 1)
+        for j, sp in enumerate(specs):
+            sp["cf"] = int(j % stride == 0)
         for i in range(0, len(specs), b):
             out.append({"fam": name, "xmax": x, "tier": tier, "meshes": specs[i:i + b]})
+    out.append({"fam": "signature", "xmax": 0, "tier": tier, "meshes": []})
     return out
 
 
@@ -564,6 +582,351 @@ def _libw(w):
     return {e: (float(w[e]) if isinstance(w[e], Fraction) else w[e]) for e in reversed(range(len(w)))}
 
 
+# ------------------------------------------------------------------------------------------ documented defaults / call forms
+REQUIRED = "<required>"
+# Public entry points of the property with their parameters in the DOCUMENTED order and the DOCUMENTED default of each
+# (copied from the signatures / docstrings of the unchanged tree; never read from the library at run time).
+DOC_SIGNATURES = {
+    "EdgeSpanningTree": [("mesh", REQUIRED), ("starting_vertex", None), ("avoid_boundary", False), ("avoid_edges", None)],
+    "EdgeMinimalSpanningTree": [("mesh", REQUIRED), ("starting_vertex", None), ("avoid_boundary", False), ("weights", "length")],
+    "EdgeSpanningForest": [("mesh", REQUIRED)],
+    "FaceSpanningTree": [("mesh", REQUIRED), ("starting_face", None), ("forbidden_edges", None)],
+    "FaceSpanningForest": [("mesh", REQUIRED), ("forbidden_edges", None)],
+    "CellSpanningTree": [("mesh", REQUIRED), ("starting_cell", None), ("forbidden_faces", None)],
+    "CellSpanningForest": [("mesh", REQUIRED)],
+    "SpanningTree.traverse": [("order", "BFS")],
+    "SpanningForest.traverse": [("order", "BFS")],
+}
+TREE_CLASSES = ("EdgeSpanningTree", "EdgeMinimalSpanningTree", "FaceSpanningTree", "CellSpanningTree")
+FOREST_CLASSES = ("EdgeSpanningForest", "FaceSpanningForest", "CellSpanningForest")
+
+
+def _optional(callee):
+    return [(p, d) for p, d in DOC_SIGNATURES[callee] if not (isinstance(d, str) and d == REQUIRED)]
+
+
+def _check_signatures(rep: Report):
+    """The library's signatures against the pinned table: a default that differs from the documented one, or a documented
+    parameter that sits at another position, IS the defect (cheap guard next to the behavioural sweep of the call forms)."""
+    import inspect
+    import mouette as M
+    T = M.processing.trees
+    for callee, doc in DOC_SIGNATURES.items():
+        if callee.endswith(".traverse"):
+            targets = [(c, getattr(T, c).traverse, True) for c in (TREE_CLASSES if callee.startswith("SpanningTree") else FOREST_CLASSES)]
+        else:
+            targets = [(callee, getattr(T, callee), False)]
+        for cname, fn, drop_self in targets:
+            rep.transitions += 1
+            o = call(lambda: list(inspect.signature(fn).parameters.values()))
+            if not o.ok:
+                rep.violation("C10.defaults.signature", callee, exc_kind(o), "signature", {"class": cname, "msg": o.msg})
+                continue
+            params = o.value[1:] if drop_self else o.value
+            got = [(p.name, REQUIRED if p.default is inspect.Parameter.empty else p.default) for p in params]
+            names = [g[0] for g in got]
+            for i, (p, d) in enumerate(doc):
+                rep.evaluations += 1
+                rep.flag(f"defaults:signature:{callee}.{p}")
+                det = {"class": cname, "documented": [[a, repr(b)] for a, b in doc], "library": [[a, repr(b)] for a, b in got]}
+                if p not in names:
+                    rep.violation("C10.defaults.signature", callee, "mismatch:parameter_missing", p, det)
+                    continue
+                if names.index(p) != i:
+                    rep.violation("C10.defaults.signature", callee, "mismatch:parameter_order", p, det)
+                gp = params[names.index(p)]
+                if gp.kind is not inspect.Parameter.POSITIONAL_OR_KEYWORD:
+                    rep.violation("C10.defaults.signature", callee, "mismatch:parameter_kind", p, det)
+                gd = got[names.index(p)][1]
+                if type(gd) is not type(d) or gd != d:
+                    rep.violation("C10.defaults.signature", callee, "mismatch:default_value", p, det)
+            for p, d in got[len(doc):]:
+                if isinstance(d, str) and d == REQUIRED:     # a new parameter without default breaks every documented call
+                    rep.violation("C10.defaults.signature", callee, "mismatch:new_required_parameter", p,
+                                  {"class": cname, "library": [[a, repr(b)] for a, b in got]})
+    rep.traces += 1
+
+
+def _meanings(k):
+    """Assignments of 'd' (documented default) / 'a' (another value) to k options: all default, all other, and each option
+    singled out both ways (it alone default / it alone different)."""
+    out = []
+    for m in [("d",) * k, ("a",) * k] + [tuple(x if j == i else y for j in range(k)) for i in range(k) for x, y in (("d", "a"), ("a", "d"))]:
+        if m not in out:
+            out.append(m)
+    return out
+
+
+def _forms(names, m):
+    """Ways of writing the call with meaning m: (style, names of the omitted options, indices passed positionally,
+    indices passed by keyword). Only options whose value is the documented default may be omitted."""
+    k = len(names)
+    dflt = [i for i in range(k) if m[i] == "d"]
+    forms = [("keyword", (), (), tuple(range(k)))]
+    if len(dflt) in (1, k):          # one at a time: among all-default options, and alone among options set otherwise
+        for i in dflt:
+            forms.append(("omitted", (names[i],), (), tuple(j for j in range(k) if j != i)))
+    if len(dflt) >= 2:
+        forms.append(("omitted", tuple(names[i] for i in dflt), (), tuple(j for j in range(k) if m[j] == "a")))
+    forms.append(("positional", (), tuple(range(k)), ()))
+    t = k
+    while t > 0 and m[t - 1] == "d":
+        t -= 1
+    if 0 < t < k:                    # (t == 0 is the call with everything omitted, listed above)
+        forms.append(("positional", tuple(names[t:]), tuple(range(t)), ()))
+    return forms
+
+
+def _order_shape(nodes, par, order):
+    """BFS: the depth never decreases along the sequence; DFS: pre-order, the subtree of every node is one contiguous block."""
+    try:
+        if order == "BFS":
+            depth = {}
+            last = 0
+            for v in nodes:
+                depth[v] = 0 if par[v] is None else depth[int(par[v])] + 1
+                if depth[v] < last:
+                    return False
+                last = depth[v]
+            return True
+        stack = []
+        for v in nodes:
+            p = None if par[v] is None else int(par[v])
+            while stack and stack[-1] != p:
+                stack.pop()
+            if p is not None and not stack:
+                return False
+            stack.append(v)
+        return True
+    except (KeyError, IndexError):
+        return False
+
+
+def _tree_result(t):
+    return (int(t.root), [None if p is None else int(p) for p in t.parent],
+            [sorted(int(c) for c in ch) for ch in t.children], sorted(_edge_pairs(t.edges)))
+
+
+def _forest_result(fo):
+    return ([int(r) for r in fo.roots], [_tree_result(t) for t in fo.trees])
+
+
+def _call_forms_clause(T, mesh, info, kind, rep: Report, mtag):
+    """For every entry point: every way of writing a call (each option omitted alone, all defaulted options omitted, all by
+    keyword, all positionally in the documented order, a positional prefix) for every meaning of `_meanings` must satisfy the
+    oracle for the documented meaning and give the same tables as the all-keyword call. None roots are answered by the seam."""
+    n, L = info.nv, len(info.E)
+    kname = KIND_NAME[kind]
+    all_epairs = set(info.E)
+
+    def report(style, callee, kind_, omitted, detail):
+        rep.violation("C10.defaults." + style, callee, kind_, "+".join(omitted) if omitted else "nothing_omitted", dict(detail, **mtag))
+
+    def traverse_forms(obj, callee, n_el, want_of):
+        """order omitted / keyword / positional. want_of(order) -> (sequence of the positional call, which the judges of the
+        sweeps validate against the statement; [(nodes of one tree, its parent table)] to judge what BFS / DFS mean)."""
+        cap = 2 * n_el + 3
+        forms = (("BFS", "omitted", ("order",), lambda: obj.traverse()),
+                 ("BFS", "keyword", (), lambda: obj.traverse(order="BFS")),
+                 ("DFS", "keyword", (), lambda: obj.traverse(order="DFS")),
+                 ("BFS", "positional", (), lambda: obj.traverse("BFS")),
+                 ("DFS", "positional", (), lambda: obj.traverse("DFS")))
+        seqs = {}
+        for order in ("BFS", "DFS"):
+            # what the two orders mean, judged once on the sequence of the positional call
+            rep.evaluations += 1
+            w = call(lambda: want_of(order))
+            if not w.ok:
+                continue                            # reported by the judges of the sweeps
+            seqs[order] = w.value[0]
+            for nodes, par in w.value[1]:
+                if not _order_shape(nodes, par, order):
+                    rep.violation("C10.traverse_order", callee, "mismatch:not_breadth_first" if order == "BFS" else "mismatch:not_depth_first",
+                                  order, dict(call=f"traverse({order!r})", sequence=w.value[0], **mtag))
+                    break
+        for order, style, omitted, fn in forms:
+            if order not in seqs:
+                continue
+            rep.transitions += 1
+            rep.evaluations += 1
+            rep.flag(f"defaults:{style}:{callee}.order")
+            o = call(lambda: [(int(a), None if b is None else int(b)) for a, b in itertools.islice(fn(), cap)])
+            det = {"call": {"omitted": "traverse()", "keyword": f"traverse(order={order!r})", "positional": f"traverse({order!r})"}[style]}
+            if not o.ok:
+                report(style, callee, exc_kind(o), omitted, dict(det, msg=o.msg))
+            elif o.value != seqs[order]:
+                report(style, callee, "mismatch:sequence_differs_from_documented_order", omitted,
+                       dict(det, sequence=o.value, documented_order=order, sequence_of_that_order=seqs[order]))
+        if len(seqs) == 2 and seqs["BFS"] != seqs["DFS"]:
+            rep.flag(f"defaults:discriminating:{callee}.order")
+
+    def tree_traversal(t, n_el):
+        def want_of(order):
+            seq = [(int(a), None if b is None else int(b)) for a, b in itertools.islice(t.traverse(order), 2 * n_el + 3)]
+            return seq, [([a for a, _ in seq], t.parent)]
+        traverse_forms(t, "SpanningTree.traverse", n_el, want_of)
+
+    def forest_traversal(fo, n_el):
+        def want_of(order):
+            parts = [[(int(a), None if b is None else int(b)) for a, b in itertools.islice(t.traverse(order), 2 * n_el + 3)]
+                     for t in fo.trees]
+            return [x for p in parts for x in p], [([a for a, _ in p], t.parent) for p, t in zip(parts, fo.trees)]
+        traverse_forms(fo, "SpanningForest.traverse", n_el, want_of)
+
+    def sweep(callee, cls, values, expect, result_of, after):
+        """values: option -> {'d': thunk, 'a': thunk} in the documented order; expect(m, obj) -> judge tuple or None."""
+        opts = _optional(callee)
+        names = [p for p, _ in opts]
+        refs = {}
+        for m in _meanings(len(names)):
+            ref = None
+            for style, omitted, pos, kw in _forms(names, m):
+                args = [values[names[i]][m[i]]() for i in pos]
+                kwargs = {names[i]: values[names[i]][m[i]]() for i in kw}
+                for i in (pos if style == "positional" else kw if style == "keyword" else [names.index(p) for p in omitted]):
+                    rep.flag(f"defaults:{style}:{callee}.{names[i]}")
+                rep.transitions += 1
+                rep.states += 1
+                rep.evaluations += 1
+                o = call(lambda: cls(mesh, *args, **kwargs)())
+                cur = call(lambda: result_of(o.value)) if o.ok else None
+                if style != "keyword" and cur is not None and cur.ok and cur.value == ref:
+                    continue                        # same tables as the judged all-keyword call
+                # the all-keyword call, or a call that answers differently: the oracle of the documented meaning says how
+                if o.ok:
+                    res = call(lambda: expect(m, o.value))
+                    bad = (res.value if res.ok else ("judge", exc_kind(res), {"msg": res.msg}))
+                    if not bad and not cur.ok:
+                        bad = ("tables", exc_kind(cur), {"msg": cur.msg})
+                else:
+                    bad = ("answers", exc_kind(o), {"msg": o.msg})
+                if bad or style != "keyword":
+                    det = {"call": f"{callee}(mesh" + "".join(f", {a!r}" for a in args)
+                           + "".join(f", {k_}={v!r}" for k_, v in kwargs.items()) + ")()", "randint_answers": seam.answer}
+                    if omitted:
+                        det["documented_default"] = {p: repr(dict(opts)[p]) for p in omitted}
+                if style != "keyword" and omitted:
+                    # which omitted option is to blame: the one whose documented default, passed explicitly, repairs the call
+                    blame = []
+                    for p in omitted:
+                        kw2 = dict(kwargs, **{p: values[p]["d"]()})
+                        o2 = call(lambda: result_of(cls(mesh, *args, **kw2)()))
+                        if o2.ok and o2.value == ref:
+                            blame.append(p)
+                    if blame:
+                        style, omitted = "omitted", tuple(blame)
+                        det["repaired_by_passing_explicitly"] = blame
+                if bad:
+                    report(style, callee, bad[1], omitted, dict(det, clause=bad[0], **bad[2]))
+                    if style == "keyword":
+                        break                       # no sound reference for the other ways of writing this call
+                    continue
+                if style == "keyword":
+                    ref = refs[m] = cur.value
+                    rep.case(("H", callee, mtag["mesh"]["el"], mtag["mesh"]["n"], kind, m))
+                    after(m, o.value)
+                else:
+                    report(style, callee, "mismatch:differs_from_all_keyword_call", omitted,
+                           dict(det, result=repr(cur.value)[:400], all_keyword_result=repr(ref)[:400]))
+        k = len(names)
+        for i in range(k):
+            for base in ("d", "a"):
+                a = tuple("d" if j == i else base for j in range(k))
+                b = tuple("a" if j == i else base for j in range(k))
+                if a in refs and b in refs and refs[a] != refs[b]:
+                    rep.flag(f"defaults:discriminating:{callee}.{names[i]}")
+
+    def pick(links, n_el, n_ids):
+        """(root given explicitly, root answered by the seam, exclusion set): both ends of the last link, and that link."""
+        if links:
+            a, b, lid = links[-1]
+            return b, a, (lid,)
+        return n_el - 1, 0, (n_ids + 1,)
+
+    def rooted(m, t, n_el, explicit):
+        r = _as_int(t.root)
+        if r is None or not 0 <= r < n_el:
+            return None, ("root", "mismatch:root_not_an_element", {"root": repr(t.root)})
+        if m[0] == "a" and r != explicit:
+            return None, ("root", "mismatch:root_is_not_the_given_one", {"root": r, "given": explicit})
+        return r, None
+
+    with RandintSeam() as seam:
+        # vertex trees: prefer a link that is not on the border, so that the border switch and the exclusion are independent
+        inner = [l for l in info.edge_links if not info.border_e[l[2]]]
+        r2, r1, S = pick(inner or info.edge_links, n, L)
+        seam.answer = r1
+
+        def edge_expect(m, t):
+            r, bad = rooted(m, t, n, r2)
+            if bad:
+                return bad
+            ab, ex = m[1] == "a", (S if m[2] == "a" else ())
+            adm = info.admissible(info.edge_links, ex, info.border_e if ab else None)
+            pairs = set(_key(a, b) for a, b, _ in adm)
+            xp = set(_key(a, b) for a, b, l in info.edge_links if l in ex) - pairs
+            return judge_bfs_tree(t, n, r, pairs, all_epairs, _hops(n, _adj(n, adm), r), rep, xp)
+
+        def mst_expect(m, t):
+            r, bad = rooted(m, t, n, r2)
+            if bad:
+                return bad
+            adm = info.admissible(info.edge_links, (), info.border_e if m[1] == "a" else None)
+            pairs = set(_key(a, b) for a, b, _ in adm)
+            return judge_mst(t, n, r, adm, pairs, all_epairs, info.sqlen if m[2] == "d" else [1] * L, rep)
+
+        def trav(n_el):
+            return lambda m, t: tree_traversal(t, n_el) if len(set(m)) == 1 else None
+
+        rootv = {"d": lambda: None, "a": lambda: r2}
+        sweep("EdgeSpanningTree", T.EdgeSpanningTree,
+              {"starting_vertex": rootv, "avoid_boundary": {"d": lambda: False, "a": lambda: True},
+               "avoid_edges": {"d": lambda: None, "a": lambda: set(S)}}, edge_expect, _tree_result, trav(n))
+        sweep("EdgeMinimalSpanningTree", T.EdgeMinimalSpanningTree,
+              {"starting_vertex": rootv, "avoid_boundary": {"d": lambda: False, "a": lambda: True},
+               "weights": {"d": lambda: "length", "a": lambda: "one"}}, mst_expect, _tree_result, trav(n))
+        o = call(lambda: T.EdgeSpanningForest(mesh)())
+        if o.ok:
+            forest_traversal(o.value, n)
+
+        for cname, fname, links, ne, nl, optnames in (
+                ("FaceSpanningTree", "FaceSpanningForest", info.face_links if kind == "sf" else None, info.nf, L,
+                 ("starting_face", "forbidden_edges")),
+                ("CellSpanningTree", "CellSpanningForest", info.cell_links if kind == "vol" else None, info.nc, info.nf,
+                 ("starting_cell", "forbidden_faces"))):
+            if links is None or ne == 0:
+                continue
+            all_pairs = set(_key(a, b) for a, b, _ in links)
+            e2, e1, X = pick(links, ne, nl)
+            seam.answer = e1
+
+            def admit(ex):
+                adm = info.admissible(links, ex)
+                pairs = set(_key(a, b) for a, b, _ in adm)
+                return adm, pairs, set(_key(a, b) for a, b, l in links if l in ex) - pairs
+
+            def el_expect(m, t):
+                r, bad = rooted(m, t, ne, e2)
+                if bad:
+                    return bad
+                adm, pairs, xp = admit(X if m[1] == "a" else ())
+                return judge_bfs_tree(t, ne, r, pairs, all_pairs, _hops(ne, _adj(ne, adm), r), rep, xp)
+
+            def fo_expect(m, fo):
+                adm, pairs, xp = admit(X if m and m[0] == "a" else ())
+                return judge_forest(fo, ne, adm, pairs, all_pairs, rep, xp)
+
+            sweep(cname, getattr(T, cname), {optnames[0]: {"d": lambda: None, "a": lambda: e2},
+                                             optnames[1]: {"d": lambda: None, "a": lambda: set(X)}}, el_expect, _tree_result, trav(ne))
+            if fname == "FaceSpanningForest":
+                sweep(fname, getattr(T, fname), {"forbidden_edges": {"d": lambda: None, "a": lambda: set(X)}}, fo_expect,
+                      _forest_result, lambda m, fo: forest_traversal(fo, ne))
+            else:
+                o = call(lambda: getattr(T, fname)(mesh)())
+                if o.ok:
+                    forest_traversal(o.value, ne)
+
+
 def _check_mesh(spec, xmax, tier, fam, rep: Report):
     import mouette as M
     from mc import families as F
@@ -823,6 +1186,11 @@ def _check_mesh(spec, xmax, tier, fam, rep: Report):
                 verdict(res, cname, "plain", det, "w=one")
                 rep.case(("N", cname, spec["el"], spec["n"], kind, a))
 
+    # ---- H. documented defaults and call forms (omitted / positional / keyword arguments)
+    if spec.get("cf", 1):
+        rep.count("call_forms_meshes:" + fam)
+        _call_forms_clause(T, mesh, info, kind, rep, mtag)
+
     # ---- G. the tree exported as a polyline (build_tree_as_polyline) shows the same tree
     def bary(elems):
         return [tuple(sum(Fraction(pts[int(v)][k]) for v in el) / len(el) for k in range(3)) for el in elems]
@@ -889,6 +1257,8 @@ def _check_mesh(spec, xmax, tier, fam, rep: Report):
 
 def run_task(task, rep: Report):
     before = _rng_state()
+    if task["fam"] == "signature":
+        _check_signatures(rep)
     for spec in task["meshes"]:
         _check_mesh(spec, task["xmax"], task["tier"], task["fam"], rep)
     if _rng_state() != before:
@@ -908,6 +1278,10 @@ def finish(tier, rep: Report):
         got = rep.counters.get("meshes:" + fam, 0)
         if got != want:
             fails.append(f"family {fam} has {got} members, pinned {want}")
+    for fam, want in PINNED[tier].items():
+        want = -(-want // (1 if tier == "thorough" else CF_STRIDE.get(fam, 1)))
+        if rep.counters.get("call_forms_meshes:" + fam, 0) != want:
+            fails.append(f"call forms swept on {rep.counters.get('call_forms_meshes:' + fam, 0)} members of {fam}, expected {want}")
     need = ["polyline:disconnected", "surface:disconnected", "surface:closed", "surface:bordered", "surface:arity3",
             "surface:arity4", "surface:arity34", "polyline:excl:disconnects", "surface:excl:disconnects",
             "surface:border:disconnects", "volume:border:disconnects", "FaceSpanningTree:excl:disconnects",
@@ -923,6 +1297,13 @@ def finish(tier, rep: Report):
             fails.append(f"event kind {kind} produced a single outcome")
     if rep.counters.get("weight_vectors", 0) < 1000:
         fails.append("exhaustive weight vectors not swept")
+    # every entry of the table of documented defaults was exercised in every way, on an input where its value matters
+    for callee in DOC_SIGNATURES:
+        for p, d in DOC_SIGNATURES[callee]:
+            want = ["signature"] + ([] if isinstance(d, str) and d == REQUIRED else ["omitted", "keyword", "positional", "discriminating"])
+            for what in want:
+                if f"defaults:{what}:{callee}.{p}" not in rep.flags:
+                    fails.append(f"documented default not exercised: {what} {callee}.{p}")
     return fails
 
 
